@@ -46,6 +46,7 @@ def vdec(l, i=0):
     raise ValueError(l[i:i + 5])
 
 
+RESERVED = ('keys', 'get', 'items', 'pop', 'update', 'copy', 'clear', 'set', 'values', 'setdefault', 'iterkeys', 'itervalues', 'iteritems', 'has_key')
 NONE = -777777        # stands for a None leaf in the model's integer vocabulary
 
 
@@ -82,7 +83,7 @@ def canon(o):
 
 
 # ---- generators ---------------------------------------------------------------------------------------
-NAMES = ['a', 'b', 'c', 'ab', 'x1', 'l', 'm', 'keys', 'get', '__x', 'items', 'n_0']
+NAMES = ['a', 'b', 'c', 'ab', 'x1', 'l', 'm', 'keys', 'get', '__x', 'items', 'n_0', '_id', '_m']
 
 
 def gen_value(rng, depth=2):
@@ -255,7 +256,10 @@ def spec_check(ops):
     for n, op in enumerate(ops):
         t = op[0]
         if t == 'keys':
-            ks = list(d.keys())
+            try:
+                ks = list(d.keys()); list(d.items()); list(d.values()); list(d)
+            except Exception as e:
+                return n, 'iterating the tree (keys / items / values) raises %s' % type(e).__name__
             for k in ks:
                 try:
                     v = d[k]
@@ -291,7 +295,18 @@ def spec_check(ops):
                             if q not in d or canon(d[q]) != canon(v):
                                 return n, 'assignment to %r changed unrelated path %r' % (k, q)
             elif t == 'get':
-                d[k]
+                v = d[k]
+                comps = k.split('.')
+                if simple and all(c.isidentifier() and not c.startswith('__') and c not in RESERVED for c in comps):
+                    # attribute form: d.a.b.c is d['a.b.c'] (single leading underscores are ordinary names)
+                    try:
+                        o = d
+                        for c in comps:
+                            o = getattr(o, c)
+                    except Exception as e:
+                        return n, 'path %r looks up by index form but its attribute form raises %s' % (k, type(e).__name__)
+                    if o is not v and canon(o) != canon(v):
+                        return n, 'attribute form and index form of %r return different values' % (k,)
             elif t == 'in':
                 r = k in d
                 try:
